@@ -11,7 +11,13 @@ panic.  After the fault: every node is queried, one more session flips every
 input, every node is queried again, the engine is shut down (over
 DbBacked<MemKv> the store must drain).  TLC (EngineObsTrace: Cancelled / Arm /
 QueryPanicked actions) decides: every later value is the from-scratch value, a
-panic reaches the user exactly when the armed executor ran, nothing hangs."""
+panic reaches the user exactly when the armed executor ran, nothing hangs.
+
+Concurrent dimension: specs/EngineConc.tla has an `Abandon` action (the owner
+of computing entries drops its request or panics while suspended in its
+executor; unwinding removes the entries and wakes the subscribers).  TLC
+generates schedules with one abandoned request; conc_sched forces them on the
+real engine: the waiting tasks must take over and complete."""
 import json
 import os
 import time
@@ -42,6 +48,39 @@ def run(tier, seed):
         vp.run_subject([os.path.join(bd, "eng_cancel"), "--cfg", cfg, "--nofw", str(nofw), "--progs", str(progs),
                 "--ext", str(ext), "--seed", str(seed * 10 + i), "--out", tr, "--cases", tr + ".cases"], timeout=3000)
         traces.append({"trace": tr, "cases": tr + ".cases", "origin": f"{cfg} nofw={nofw}"})
+    # concurrent dimension: behaviours of specs/EngineConcGen.tla in which one request is abandoned
+    # (future dropped / executor panic) while its executor is suspended and other tasks wait for the
+    # queries it was computing; forced on the real engine step by step (conc_sched)
+    sched_cases = os.path.join(wd, "abandon.cases")
+    g = vp.run(["python3", os.path.join(vp.ROOT, "tools", "gen_conc.py"), sched_cases, str(seed),
+                "60" if quick else "1200", "abandon"], timeout=2400, env={"VH_TMP": vp.workdir(PID, "tlcgen")})
+    ginfo = json.loads(g.stdout.strip().splitlines()[-1])
+    sched_tr = os.path.join(wd, "abandon.ndjson")
+    sched_res = os.path.join(wd, "abandon.res")
+    vp.run_subject([os.path.join(bd, "conc_sched"), "--in", sched_cases, "--out", sched_tr, "--res", sched_res],
+                   timeout=3000)
+    sres = vp.read_ndjson(sched_res)
+    scases = vp.read_ndjson(sched_cases)
+    ab = {"cancel": sum(1 for c in scases for st in c["steps"] if st["a"] == "AbandonCancel"),
+          "panic": sum(1 for c in scases for st in c["steps"] if st["a"] == "AbandonPanic")}
+    sched_info = {"behaviours_generated_by_TLC": ginfo["behaviours"], "steps": ginfo["steps"],
+                  "abandoned_by_cancel": ab["cancel"], "abandoned_by_panic": ab["panic"],
+                  "steps_followed_exactly": sum(r["followed"] for r in sres),
+                  "schedules_followed_to_the_end": sum(1 for r in sres if r["drift"] is None and not r["hang"]),
+                  "model_drift": sum(1 for r in sres if r["drift"] is not None and not r["hang"]),
+                  "first_drift": next((r for r in sres if r["drift"] is not None and not r["hang"]), None),
+                  "hangs": sum(1 for r in sres if r["hang"])}
+    for r in [r for r in sres if r["hang"]][:3]:
+        verdict.violation(f"no_progress: after a request was abandoned, schedule {r['case']} does not complete, not even "
+                          f"when the tasks run freely after step {r['followed']} ({r['drift']})",
+                          {"property": PID, "kind": "no_progress", "origin": "EngineConcGen abandon schedule replay",
+                           "case": scases[r["case"]], "result": r})
+    ab_res, ab_r = ec.validate(sched_tr, sched_tr + ".result.json")
+    for v in [v for v in ab_res["viol"] if v["kind"] in KINDS and v["kind"] != "no_progress"][:3]:
+        verdict.violation(f"{v['kind']} node={v['n']} got={v['got']} want={v['want']} (abandon schedule replay)",
+                          {"property": PID, "violation": v, "origin": "EngineConcGen abandon schedule replay"})
+    sched_info["events_validated"] = ab_res["events"]
+
     summary = ec.collect(PID, traces, verdict, known, "mem")
     baseline_same = ec.finish_candidates(PID, verdict, summary, wd, "eng_cancel", [])
     rc = verdict.finish()
@@ -62,6 +101,7 @@ def run(tier, seed):
                 "completes); each is followed by two full sweeps of queries, a session and a shutdown",
         "samples": sample,
         "faults": faults,
+        "abandoned_owner_with_waiters_schedules": sched_info,
         "states": summary["states"], "transitions": summary["transitions"],
         "events_validated": summary["events"],
         "checked": summary["stats"],
